@@ -3,7 +3,7 @@
     output contain no '-', base64 decodes what it encoded.  Nonces and client addresses contain
     no comma; times are integers >= 0 spelled by "%d". *)
 From Coq Require Import List NArith ZArith Bool.
-From C48 Require Import Model Proofs.
+From C48 Require Import Model Proofs Proofs2.
 Import ListNotations.
 
 (** FULL STATEMENT of the property's first sentence; partial only because MD5/SHA-1 are replaced by
@@ -92,3 +92,47 @@ Theorem malformed_is_LoginFailed : forall HX b64dec priv now fs host,
   decode HX b64dec priv now fs host = LoginFailed.
 Proof. exact malformed. Qed.
 Print Assumptions malformed_is_LoginFailed.
+
+(** ---- from the raw header bytes ---- *)
+
+(** decode()'s front end (splitlines / join, the key=value expression scanned by findall, strip) returns
+    exactly the fields of a canonically serialised response  key="value", key="value", ...
+    for keys without '=', space, line ends or strippable ends and values without double quote, line ends
+    or strippable ends -- for any number of fields *)
+Theorem raw_response_parses_to_its_fields : forall fs,
+  Forall wf_field fs -> parse_fields (ser fs) = fs.
+Proof. exact parse_ser. Qed.
+Print Assumptions raw_response_parses_to_its_fields.
+
+Theorem login_from_raw_bytes_is_login_on_fields : forall HX b64dec priv realm now fs method host pw,
+  Forall wf_field fs -> ascii_keys fs ->
+  login_raw HX b64dec priv realm now (ser fs) method host pw = login HX b64dec priv realm now fs method host pw.
+Proof. exact login_raw_ser. Qed.
+Print Assumptions login_from_raw_bytes_is_login_on_fields.
+
+(** the main statement, starting at the bytes of the Authorization header *)
+Theorem accept_iff_right_password_unaltered_challenge_same_client_in_lifetime_raw_partial :
+  forall (HX : algo -> bytes -> bytes) (b64enc : bytes -> bytes) (b64dec : bytes -> option bytes),
+  (forall a x y, HX a x = HX a y -> x = y) -> (forall a x, ~ In dash (HX a x)) ->
+  (forall x, b64dec (b64enc x) = Some x) -> (forall x, ~ In dash (b64enc x)) ->
+  forall priv realm fs u n0 ip0 t0 method pw r,
+  Forall wf_field fs -> ascii_keys fs ->
+  ~ In comma n0 -> ~ In comma ip0 ->
+  get k_username fs = Some u -> u <> [] ->
+  get k_nonce fs = Some n0 -> get k_opaque fs = Some (gen_opaque HX b64enc priv n0 ip0 t0) ->
+  expected_response HX realm u method fs pw = Some r -> get k_response fs = Some r ->
+  forall now host pw',
+    login_raw HX b64dec priv realm now (ser fs) method host pw' = Some true <->
+    (host = ip0 /\ (Z.of_N now - Z.of_N t0 <= lifetime)%Z /\ pw' = pw).
+Proof.
+  intros HX b64enc b64dec H1 H2 H3 H4 priv realm fs u n0 ip0 t0 method pw r Hwf Hasc. intros.
+  rewrite login_raw_ser by assumption. eapply accept_iff; eauto.
+Qed.
+Print Assumptions accept_iff_right_password_unaltered_challenge_same_client_in_lifetime_raw_partial.
+
+(** a field name with a non-ASCII byte is an ordinary LoginFailed (used to escape as UnicodeDecodeError) *)
+Theorem non_ascii_field_name_is_LoginFailed : forall HX b64dec priv now raw host,
+  existsb (fun kv => non_ascii (fst kv)) (parse_fields raw) = true ->
+  decode_raw HX b64dec priv now raw host = LoginFailed.
+Proof. exact non_ascii_key_fails. Qed.
+Print Assumptions non_ascii_field_name_is_LoginFailed.
